@@ -101,7 +101,8 @@ pub fn gen_link_target(rng: &mut Rng, dir: &str, existing: &[(String, Kind)]) ->
         7 => "..".to_string(),
         8 => "../..".to_string(),
         9 => "../../../../outside/secret".to_string(),
-        10 => "/mnt/w/outside/secret".to_string(),
+        // (absolute on the host: dangling or different inside the root)
+        10 => rng.pick(&["/mnt/w/outside/secret", "/mnt/w/outside", "/mnt/w/outside/landing", "/mnt/w/sibling"]).to_string(),
         11 => "/etc/passwd".to_string(),
         12 => "/".to_string(),
         13 => ".".to_string(),
